@@ -5,7 +5,7 @@
     the decoded value, which is well typed: exactly one accepted encoding per value), PFree
     (prefix freeness), AllocOK (storage reserved ahead of the data <= cap s * bytes consumed). *)
 From Coq Require Import NArith List Bool.
-From CB Require Import Common.Codec Common.CodecProofs Chain.ChainSchemas Chain.ChainSchemasProofs Gen.ChainSchemas Chain.GenTie.
+From CB Require Import Common.Codec Common.CodecProofs Chain.ChainSchemas Chain.ChainSchemasProofs Gen.ChainSchemas Chain.GenTie Chain.ChainSchemasFull.
 Import ListNotations.
 Local Open Scope N_scope.
 
@@ -233,7 +233,8 @@ Theorem generated_schemas_match :
   /\ g_PoolParameters = s_pool_parameters /\ g_CommissionRanges = s_commission_ranges /\ g_MintRate = s_mint_rate
   /\ g_FinalizationCommitteeParameters = s_finalization_committee_parameters /\ g_AuthorizationsV0 = s_authorizations_v0
   /\ g_AmountFraction = s_amount_fraction /\ g_UpdateKeysThreshold = s_update_keys_threshold
-  /\ g_TransactionTime = s_transaction_time /\ g_UpdatePublicKey = s_verify_key.
+  /\ g_TransactionTime = s_transaction_time /\ g_UpdatePublicKey = s_verify_key
+  /\ g_ArInfo_ArCurve = s_ar_info /\ g_Description = s_description.
 Proof. exact generated_equal. Qed.
 Print Assumptions generated_schemas_match.
 
@@ -258,6 +259,12 @@ Print Assumptions generated_schemas_all_laws.
 Theorem generated_table_all_laws : forall valid id s, In (id, s) gen_schema_table -> Laws valid s.
 Proof. exact generated_table_laws. Qed.
 Print Assumptions generated_table_all_laws.
+
+(** The sum types completed with the variants whose bodies are generated terms (Payload except tags 1, 2;
+    UpdatePayload except tag 1; BlockItem with all four tags). *)
+Theorem full_sum_types_all_laws : forall valid id s, In (id, s) full_schema_table -> Laws valid s.
+Proof. exact full_laws. Qed.
+Print Assumptions full_sum_types_all_laws.
 
 (** ** Finding F4 (ConfigureBaker bitmap).  After the fix the decoder is the schema with mask
     0x01ff and is canonical: *)
